@@ -170,7 +170,13 @@ class _FunctionCall(object):
                     retval.addCallback(_cb_async, ctx, cnt, self)
 
                 else:
-                    retval = _cb_sync(ctx, cnt, self)
+                    try:
+                        retval = _cb_sync(ctx, cnt, self)
+
+                    except Exception:
+                        # the fault goes to the caller, the context is closed
+                        p_ctx.close()
+                        raise
 
         if not self._async:
             p_ctx.close()
